@@ -99,6 +99,62 @@ flat_tuple!(A 0, B 1, C 2, D 3, E 4);
 flat_tuple!(A 0, B 1, C 2, D 3, E 4, F 5);
 flat_tuple!(A 0, B 1, C 2, D 3, E 4, F 5, G 6);
 
+// ---- zero-sized payloads ("lock as a token": Mutex<()>, the forks of the dining philosophers).
+// A zero-sized value cannot name its lock, so position checks are switched off for these shapes;
+// everything else (holds exactly the leaves, try outcomes, closure holds, release) applies.
+#[derive(Debug, Default)]
+pub struct Z;
+pub type ZM = happylock::mutex::Mutex<Z, crate::audit::AuditMutex>;
+pub type ZR = happylock::rwlock::RwLock<Z, crate::audit::AuditRwLock>;
+thread_local! {
+	static ROUTE_CHECK: std::cell::Cell<bool> = const { std::cell::Cell::new(true) };
+}
+fn route_check() -> bool {
+	ROUTE_CHECK.with(|c| c.get())
+}
+macro_rules! flat_nothing {
+	($($t:ty),+) => {$(
+		impl FlatIds for $t {
+			fn flat_ids(&self, _out: &mut Vec<LockId>) {}
+		}
+	)+};
+}
+flat_nothing!(
+	Z,
+	&Z,
+	&mut Z,
+	happylock::mutex::MutexRef<'_, Z, crate::audit::AuditMutex>,
+	happylock::mutex::MutexGuard<'_, Z, crate::audit::AuditMutex>,
+	happylock::rwlock::RwLockWriteRef<'_, Z, crate::audit::AuditRwLock>,
+	happylock::rwlock::RwLockReadRef<'_, Z, crate::audit::AuditRwLock>,
+	happylock::rwlock::RwLockWriteGuard<'_, Z, crate::audit::AuditRwLock>,
+	happylock::rwlock::RwLockReadGuard<'_, Z, crate::audit::AuditRwLock>
+);
+pub fn mk_zm(tc: &mut Tc<'_>) -> (ZM, LockId) {
+	let id = tc.w.add_lock(false);
+	let m = ZM::new(Z);
+	tc.w.begin_setup();
+	set_reg_tag(Some(id));
+	let mut k = tc.key.take().or_else(ThreadKey::get).expect("key");
+	let _ = m.scoped_try_lock(&mut k, |_| ());
+	tc.key = Some(k);
+	set_reg_tag(None);
+	tc.w.end_setup();
+	(m, id)
+}
+pub fn mk_zr(tc: &mut Tc<'_>) -> (ZR, LockId) {
+	let id = tc.w.add_lock(true);
+	let r = ZR::new(Z);
+	tc.w.begin_setup();
+	set_reg_tag(Some(id));
+	let mut k = tc.key.take().or_else(ThreadKey::get).expect("key");
+	let _ = r.scoped_try_read(&mut k, |_| ());
+	tc.key = Some(k);
+	set_reg_tag(None);
+	tc.w.end_setup();
+	(r, id)
+}
+
 struct Cx<'t, 'a> {
 	tc: &'t mut Tc<'a>,
 	cases: u64,
@@ -204,7 +260,7 @@ macro_rules! exercise {
 				if inside.get() != 1 {
 					v("closure_invocations", "C04", format!("scoped closure ran {} times", inside.get()));
 				}
-				if *seen.borrow() != ids {
+				if route_check() && *seen.borrow() != ids {
 					v("misrouted", "C02", format!("scoped data positions reach locks {:?}, declared order is {:?}", seen.borrow(), ids));
 				}
 				if !w.held(0).is_empty() {
@@ -226,7 +282,7 @@ macro_rules! exercise {
 				}
 				$got.clear();
 				g.flat_ids(&mut $got);
-				if $got != $ids {
+				if route_check() && $got != $ids {
 					$v("misrouted", "C02", format!("guard positions reach locks {:?}, declared order is {:?}", $got, $ids));
 				}
 				$w.begin_call(0, Class::Release, "static.drop", false);
@@ -320,7 +376,7 @@ macro_rules! exercise_w {
 		}
 		let mut got = Vec::new();
 		g.flat_ids(&mut got);
-		if got != ids {
+		if route_check() && got != ids {
 			v("misrouted", "C02", format!("guard positions reach locks {:?}, declared order is {:?}", got, ids));
 		}
 		w.begin_call(0, Class::Release, "static.drop", false);
@@ -383,7 +439,7 @@ macro_rules! exercise_w {
 		if inside.get() != 1 {
 			v("closure_invocations", "C04", format!("scoped closure ran {} times", inside.get()));
 		}
-		if *seen.borrow() != ids {
+		if route_check() && *seen.borrow() != ids {
 			v("misrouted", "C02", format!("scoped data positions reach locks {:?}, declared order is {:?}", seen.borrow(), ids));
 		}
 		if !w.held(0).is_empty() {
@@ -403,6 +459,16 @@ macro_rules! leaf {
 	}};
 	($cx:expr, $ids:ident, R) => {{
 		let (l, id) = mk_r($cx.tc);
+		$ids.push(id);
+		l
+	}};
+	($cx:expr, $ids:ident, ZM) => {{
+		let (l, id) = mk_zm($cx.tc);
+		$ids.push(id);
+		l
+	}};
+	($cx:expr, $ids:ident, ZR) => {{
+		let (l, id) = mk_zr($cx.tc);
 		$ids.push(id);
 		l
 	}};
@@ -551,6 +617,7 @@ fn catalogue(tc: &mut Tc<'_>) -> u64 {
 	shape_31(cx);
 	shape_32(cx);
 	shape_33(cx);
+	shape_34(cx);
 	cx.cases
 }
 
@@ -835,6 +902,30 @@ fn shape_33(cx: &mut Cx<'_, '_>) {
 	}
 }
 
+fn shape_34(cx: &mut Cx<'_, '_>) {
+	// zero-sized payloads: single locks directly and through every collection kind
+	ROUTE_CHECK.with(|c| c.set(false));
+	{
+		let mut ids: Vec<LockId> = Vec::new();
+		let m = leaf!(cx, ids, ZM);
+		cx.label = "Mutex<Z> (zero-sized payload), direct API".into();
+		exercise_w!(cx, m, ids);
+	}
+	{
+		let mut ids: Vec<LockId> = Vec::new();
+		let p = Poisonable::new(leaf!(cx, ids, ZM));
+		cx.label = "Boxed::new((Poisonable<Mutex<Z>>,))".into();
+		let c = BoxedLockCollection::new((p,));
+		exercise_w!(cx, c, ids);
+	}
+	owned_shapes_w!(cx, "(ZM,ZM,ZM)", |ids| (leaf!(cx, ids, ZM), leaf!(cx, ids, ZM), leaf!(cx, ids, ZM)));
+	owned_shapes_w!(cx, "[ZM;2]", |ids| [leaf!(cx, ids, ZM), leaf!(cx, ids, ZM)]);
+	owned_shapes_w!(cx, "(ZM,M,ZR)", |ids| (leaf!(cx, ids, ZM), leaf!(cx, ids, M), leaf!(cx, ids, ZR)));
+	owned_shapes_rw!(cx, "(ZR,ZR)", |ids| (leaf!(cx, ids, ZR), leaf!(cx, ids, ZR)));
+	owned_shapes_rw!(cx, "vec![ZR;3]", |ids| vec![leaf!(cx, ids, ZR), leaf!(cx, ids, ZR), leaf!(cx, ids, ZR)]);
+	ROUTE_CHECK.with(|c| c.set(true));
+}
+
 pub fn run(cfg: &RunCfg) -> Report {
 	let reps: u64 = if cfg.thorough { 64 } else { 4 };
 	let (mut rep, _) = par_run(cfg, reps * 2, |i, rep| {
@@ -901,6 +992,6 @@ pub fn run(cfg: &RunCfg) -> Report {
 			("ops", J::s("declared order is the reverse of the sorted order; guard/data position i must reach member i")),
 		]));
 	}
-	rep.rule = "static catalogue of happylock's own container impls under the audit locks: tuples of arity 1..7 (Mutex / RwLock / Poisonable mixes; all-Sharable ones also in read mode), arrays [T; 0..4], Box<[T]>, Vec, nested owned/retrying/boxed/poisonable collections, &T and &mut T, tuples/arrays/boxed slices of references listed in reverse and mixed orders, each through Boxed / Ref / Owned / Retrying {new, new_ref, try_new}; per collection: lock, try_lock free and with every single position pre-held (shared and exclusive), scoped_lock, and the read variants; monitors: holds exactly the leaves, position i reaches member i (payload names its lock), failed try leaves the owner table unchanged, closure runs once with all locks held; evaluations = API calls checked; distinct = catalogue entries".into();
+	rep.rule = "static catalogue of happylock's own container impls under the audit locks: tuples of arity 1..7 (Mutex / RwLock / Poisonable mixes; all-Sharable ones also in read mode), arrays [T; 0..4], Box<[T]>, Vec, nested owned/retrying/boxed/poisonable collections, &T and &mut T, locks with ZERO-SIZED payloads (Mutex<Z> / RwLock<Z>: directly, Poisonable-wrapped, in tuples / arrays / Vec, next to ordinary members; position checks off, hold checks on), tuples/arrays/boxed slices of references listed in reverse and mixed orders, each through Boxed / Ref / Owned / Retrying {new, new_ref, try_new}; per collection: lock, try_lock free and with every single position pre-held (shared and exclusive), scoped_lock, and the read variants; monitors: holds exactly the leaves, position i reaches member i (payload names its lock), failed try leaves the owner table unchanged, closure runs once with all locks held; evaluations = API calls checked; distinct = catalogue entries".into();
 	rep
 }
